@@ -95,6 +95,9 @@ WideTypes == {"BMPString", "UniversalString"}
 Place(t, sp, p) == /\ phase = "expr" /\ os # <<>>
                    /\ (t \in WideTypes /\ Len(os) >= 2) => sp \in {"none", "serial"}
                    \* (a range up to MAX spans the whole table of a wide type: minutes per definition)
+                   \* for a type that is not known-multiplier the question is only whether an annotation appears: two-operand
+                   \* expressions are placed under the first such type only (CHOOSE is deterministic)
+                   /\ (t \in OtherTypes /\ Len(os) >= 2) => (t = CHOOSE u \in OtherTypes : TRUE)
                    /\ IsExt(os[1]) => (sp \in {"none", "after"} /\ ~(t \in WideTypes /\ ToMax(os[1])))
                    /\ ty' = t /\ sizepos' = sp /\ pos' = p /\ phase' = "done"
                    /\ UNCHANGED <<os, ps>>
